@@ -60,6 +60,8 @@ def variant_constants(mode):
         c.CTi = 1 / 400
     if '+eps0' in mode:
         c.eps = 0.0
+    if '+rp' in mode:
+        c.rp = 3.1          # profiles centred away from the middle of the radial domain
     return c
 
 
@@ -105,7 +107,24 @@ def work(item):
                 vb2 = dist.make_basis(vdeg, False, [b + Fr(5, 2) for b in vbreaks], uniform=(vpath == 'cu'))
                 eta2 = list(eta[:3]) + [np.array(list(vb2.greville), dtype=object)]
                 ps.DensityFinder(6, vb2, eta2, consts)
-            df = ps.DensityFinder(6, vbasis, eta, consts)
+            vb_use = vbasis
+            if '+gc' in mode:
+                # finders on v spaces that no longer exist when the measured one is built: a new space may get the address of a dead one
+                import gc
+                dead = set()
+                for k_ in range(6):
+                    vbk = dist.make_basis(vdeg, False, [b * Fr(k_ + 2, 2) + k_ for b in vbreaks], uniform=(vpath == 'cu'))
+                    ps.DensityFinder(6, vbk, list(eta[:3]) + [np.array(list(vbk.greville), dtype=object)], consts)
+                    dead.add(id(vbk))
+                    del vbk
+                gc.collect()
+                keep = []
+                for k_ in range(40):          # new objects for the measured space until one sits where a dead space was
+                    vb_use = dist.make_basis(vdeg, False, vbreaks, uniform=(vpath == 'cu'))
+                    keep.append(vb_use)
+                    if id(vb_use) in dead:
+                        break
+            df = ps.DensityFinder(6, vb_use, eta, consts)
             if mode.startswith('perturbed'):
                 df.getPerturbedRho(g, rho)
             else:
@@ -235,7 +254,24 @@ def float_replay(m, ps, item, canary):
                 kn2 = m['spl'].make_knots(np.array([float(x) + 2.5 for x in vbreaks]), vdeg, False)
                 vb2 = m['spl'].BSplines(kn2, vdeg, False, vpath == 'cu')
                 ps.DensityFinder(6, vb2, list(eta[:3]) + [np.array(vb2.greville, dtype=float)], consts)
-            df = ps.DensityFinder(6, vb, eta, consts)
+            vb_use = vb
+            if '+gc' in mode:
+                import gc
+                dead = set()
+                for k_ in range(6):
+                    knk = m['spl'].make_knots(np.array([float(x) * (k_ + 2) / 2 + k_ for x in vbreaks]), vdeg, False)
+                    vbk = m['spl'].BSplines(knk, vdeg, False, vpath == 'cu')
+                    ps.DensityFinder(6, vbk, list(eta[:3]) + [np.array(vbk.greville, dtype=float)], consts)
+                    dead.add(id(vbk))
+                    del vbk, knk
+                gc.collect()
+                keep = []
+                for k_ in range(40):
+                    vb_use = m['spl'].BSplines(m['spl'].make_knots(np.array([float(x) for x in vbreaks]), vdeg, False), vdeg, False, vpath == 'cu')
+                    keep.append(vb_use)
+                    if id(vb_use) in dead:
+                        break
+            df = ps.DensityFinder(6, vb_use, eta, consts)
             (df.getPerturbedRho if mode.startswith('perturbed') else df.getRho)(g, rho)
             L = rho.getLayout(rho.currentLayout)
             exp = dist.local_block(ref, L)
@@ -295,6 +331,9 @@ def main():
     items.append(((3, 2, 3), (2, 1), (3, 3, 'cu'), 'perturbed+cold', None))
     items.append(((3, 2, 3), (1, 2), (3, 3, 'cu'), 'perturbed+eps0', None))
     items.append(((3, 2, 3), (1, 1), (3, 2, 'nu'), 'total+cold+eps0', None))
+    items.append(((3, 2, 3), (2, 1), (3, 3, 'cu'), 'perturbed+rp', None))
+    items.append(((3, 2, 3), (1, 1), (3, 2, 'nu'), 'total+gc', None))
+    items.append(((3, 2, 3), (1, 2), (3, 3, 'cu'), 'perturbed+gc+rp', None))
     items.append(((3, 2, 3), (1, 1), (3, 3, 'cu'), 'perturbed+hist', None))
     items.append(((3, 2, 3), (2, 1), (3, 2, 'nu'), 'perturbed+hist', None))
     if not quick:
